@@ -22,7 +22,7 @@ IntSort = z3.IntSort()
 
 
 def is_sym(x) -> bool:
-    return isinstance(x, (SInt, SBool, SBytes, SSeq, SObj, SReal, SOpt, SIncSeq))
+    return isinstance(x, (SInt, SBool, SBytes, SSeq, SObj, SReal, SOpt, SIncSeq)) or getattr(type(x), "_pyvc_sym", False)
 
 
 def tint(x):
@@ -504,7 +504,7 @@ _FMT: dict[str, tuple] = {}
 
 
 def register_fmt(v, spec):
-    k = f"⟦{len(_FMT)}⟧"
+    k = f"\x01{len(_FMT)}\x02"  # ASCII-only marker (survives .encode("ascii"))
     _FMT[k] = (v, spec)
     return k
 
@@ -518,7 +518,7 @@ def fmt_parse(s: str):
     import re
 
     out = []
-    for part in re.split("(⟦\\d+⟧)", s):
+    for part in re.split("(\x01\\d+\x02)", s):
         if part in _FMT:
             out.append(_FMT[part])
         elif part:
